@@ -64,7 +64,7 @@ func (m Map) ReferenceTargets(ctx context.Context, targetCtx *TargetContext) ref
 		}
 	}
 
-	sort.Sort(elemTargets)
+	sort.Stable(elemTargets)
 
 	if targetCtx == nil {
 		// treat element targets as 1st class ones
